@@ -63,6 +63,12 @@ where
     Role: RoleType,
     PacketIdType: IsPacketId,
 {
+    /// The identifier the application obtained for this packet, if it starts an exchange
+    /// (QoS 1/2 PUBLISH, SUBSCRIBE, UNSUBSCRIBE)
+    fn initiating_packet_id(&self) -> Option<PacketIdType> {
+        None
+    }
+
     // v3.1.1 methods
     fn send_connect_v3_1_1(
         self,
@@ -287,7 +293,9 @@ where
     ) -> Vec<GenericEvent<PacketIdType>> {
         // Version check first
         if !T::check(&connection.get_protocol_version()) {
-            return vec![GenericEvent::NotifyError(MqttError::VersionMismatch)];
+            // Refused like the same packet handed to send(): its identifier is released
+            let packet_id = self.initiating_packet_id();
+            return connection.refuse_send(MqttError::VersionMismatch, packet_id);
         }
 
         trace!("Static dispatch sent: {}", self);
